@@ -68,3 +68,24 @@ fn c09_export_only_sys() {
     core::mem::forget(loaded);
     core::mem::forget(store);
 }
+
+// @h props=C09,C17 tier=quick cap=600 desc="only the ROOT segment $SYS is system data: user keys a/$SYS (value) and a/$SYS/b below a user key survive export and rebuild with values, kinds and versions" bounds="keys a/$SYS, a/$SYS/b; values Bool; version u64"
+#[kani::proof]
+#[kani::unwind(5)]
+#[kani::stub(std::mem::MaybeUninit::write, stub_mu_write)]
+fn c09_export_nested_sys_segment() {
+    let e_1 = E::any(true);
+    let e_2 = E::any(false);
+    // {a/$SYS (CAS), a/$SYS/b (plain)}
+    let data = n1(None, "a", n1(None, "$SYS", n1(Some(e_1.entry()), "b", n0(Some(e_2.entry())))));
+    let mut store = Store { data, len: 2, ..Default::default() };
+    let persisted = store.export_for_persistence();
+    let loaded: Store = persisted.into();
+    check_present(&loaded, &[s("a"), s("$SYS")], &e_1);
+    check_present(&loaded, &[s("a"), s("$SYS"), s("b")], &e_2);
+    assert!(loaded.len() == 2, "C09: every user key is exported - a segment $SYS below the root is an ordinary key segment");
+    check_present(&store, &[s("a"), s("$SYS")], &e_1);
+    kani::cover!(true);
+    core::mem::forget(loaded);
+    core::mem::forget(store);
+}
